@@ -806,7 +806,9 @@ get_load_opcode_for_size (int size)
     case 8:
       return orc_opcode_find_by_name ("loadq");
     default:
-      ORC_ASSERT(0);
+      /* no load/store opcode for this size (e.g. x2 of an 8-byte
+       * operand): the caller fails the compile */
+      break;
   }
   return NULL;
 }
@@ -824,7 +826,9 @@ get_loadp_opcode_for_size (int size)
     case 8:
       return orc_opcode_find_by_name ("loadpq");
     default:
-      ORC_ASSERT(0);
+      /* no load/store opcode for this size (e.g. x2 of an 8-byte
+       * operand): the caller fails the compile */
+      break;
   }
   return NULL;
 }
@@ -842,7 +846,9 @@ get_store_opcode_for_size (int size)
     case 8:
       return orc_opcode_find_by_name ("storeq");
     default:
-      ORC_ASSERT(0);
+      /* no load/store opcode for this size (e.g. x2 of an 8-byte
+       * operand): the caller fails the compile */
+      break;
   }
   return NULL;
 }
@@ -890,6 +896,11 @@ orc_compiler_rewrite_insns (OrcCompiler *compiler)
           cinsn->flags |= ORC_INSN_FLAG_ADDED;
           cinsn->flags &= ~(ORC_INSTRUCTION_FLAG_X2|ORC_INSTRUCTION_FLAG_X4);
           cinsn->opcode = get_load_opcode_for_size (var->size);
+          if (cinsn->opcode == NULL) {
+            orc_compiler_error (compiler, "unsupported variable size");
+            compiler->result = ORC_COMPILE_RESULT_UNKNOWN_PARSE;
+            return;
+          }
           cinsn->dest_args[0] = orc_compiler_new_temporary (compiler,
               var->size);
           cinsn->src_args[0] = insn.src_args[i];
@@ -931,6 +942,11 @@ orc_compiler_rewrite_insns (OrcCompiler *compiler)
           cinsn->flags = insn.flags;
           cinsn->flags |= ORC_INSN_FLAG_ADDED;
           cinsn->opcode = get_loadp_opcode_for_size (opcode->src_size[i]);
+          if (cinsn->opcode == NULL) {
+            orc_compiler_error (compiler, "unsupported variable size");
+            compiler->result = ORC_COMPILE_RESULT_UNKNOWN_PARSE;
+            return;
+          }
           cinsn->dest_args[0] = orc_compiler_new_temporary (compiler,
               opcode->src_size[i] * multiplier);
           if (var->vartype == ORC_VAR_TYPE_CONST) {
@@ -976,6 +992,11 @@ orc_compiler_rewrite_insns (OrcCompiler *compiler)
           cinsn->flags |= ORC_INSN_FLAG_ADDED;
           cinsn->flags &= ~(ORC_INSTRUCTION_FLAG_X2|ORC_INSTRUCTION_FLAG_X4);
           cinsn->opcode = get_store_opcode_for_size (var->size);
+          if (cinsn->opcode == NULL) {
+            orc_compiler_error (compiler, "unsupported variable size");
+            compiler->result = ORC_COMPILE_RESULT_UNKNOWN_PARSE;
+            return;
+          }
           cinsn->src_args[0] = orc_compiler_new_temporary (compiler, var->size);
           cinsn->dest_args[0] = xinsn->dest_args[i];
           xinsn->dest_args[i] = cinsn->src_args[0];
